@@ -16,7 +16,7 @@ from refs.site import canon
 from harness import web, crawl
 
 P = 'C18'
-BUDGETS = {'C18': (50, 1200, 40)}
+BUDGETS = {'C18': (60, 1200, 40)}
 LEVELS = {'C18': 'exploration'}
 WALL_LIMIT = {('C18', 'quick'): 180, ('C18', 'thorough'): 180}
 SHRINK = {'C18': (45, 60)}
